@@ -132,7 +132,11 @@ def check_op(facts, f, bi, si, kind, t):
         if kind.endswith("itoap::write_to_ptr"):
             a0 = sy.operand(t["args"][0])
             ok = is_call(a0, "DeferredWriter::buf_write_ptr")
-            return ok and bool(g), "write_to_ptr into the pointer reserved by buf_write_ptr(MAX_LEN), on the non-null edge"
+            # ... and the space reserved is itoap's own bound for the type that is written (any other bound is a claim
+            # about itoap's output that nothing here checks: digits *and* the sign)
+            reserved = a0[3][1] if ok and len(a0[3]) > 1 else None
+            ok_len = reserved is not None and reserved[0] == "c?" and reserved[1].endswith("itoap::Integer>::MAX_LEN") and reserved[1].startswith("<I as")
+            return ok and ok_len and bool(g), "write_to_ptr into the pointer reserved by buf_write_ptr(<I as itoap::Integer>::MAX_LEN), on the non-null edge (reserved: %s)" % (sy.show(reserved) if reserved is not None else "?")
         if kind.endswith("DeferredWriter::advance_unchecked"):
             a1 = sy.operand(t["args"][1])
             ok = is_call(a1, "itoap::write_to_ptr")
